@@ -402,6 +402,30 @@ VARIANTS = [
                {"file": MSGSER, "old": "    def can_handle(self,",
                 "new": "    def _packable(self, tb):\n        for v in tb.variables:\n"
                        "            if v.type in LLSDDataPacker.SPECS:\n                yield v\n\n    def can_handle(self,"}]},
+    # ------------------------------------------------------------------ round 7
+    {"name": "R8 notation reals written with six decimals", "file": LLSD, "expect": "C12.R8",
+     "old": "    def STRING(self, v):\n", "new": "    def REAL(self, v):\n        return b\"r%.6f\" % v\n\n    def STRING(self, v):\n"},
+    {"name": "P8 notation reals written through repr", "file": LLSD, "expect": "silent",
+     "old": "    def STRING(self, v):\n", "new": "    def REAL(self, v):\n        return b\"r\" + repr(v).encode(\"ascii\")\n\n    def STRING(self, v):\n"},
+    {"name": "R2 wire form of strings memoised by value although the tag depends on the subclass", "file": LLSD, "expect": "C12.R2",
+     "old": "def format_binary(val: typing.Any, with_header=True) -> bytes:\n",
+     "new": "_STR_WIRE = {}\n\n\ndef _wire_str(text):\n    hit = _STR_WIRE.get(text)\n    if hit is None:\n"
+            "        tag = b'l' if isinstance(text, uri) else b's'\n        enc = text.encode(\"utf8\")\n"
+            "        hit = _STR_WIRE[text] = tag + struct.pack('!i', len(enc)) + enc\n    return hit\n\n\n"
+            "def format_binary(val: typing.Any, with_header=True) -> bytes:\n"},
+    {"name": "P2 length prefixes through a precompiled Struct constant", "expect": "silent",
+     "edits": [{"file": LLSD, "old": "def format_binary(val: typing.Any, with_header=True) -> bytes:\n",
+                "new": "_LEN = struct.Struct('!i')\n\n\ndef format_binary(val: typing.Any, with_header=True) -> bytes:\n"},
+               {"file": LLSD, "old": "        return b'b' + struct.pack('!i', len(something)) + something\n",
+                "new": "        return b'b' + _LEN.pack(len(something)) + something\n"}]},
+    {"name": "R2 precompiled length constant is 16 bit", "expect": "C12.R2",
+     "edits": [{"file": LLSD, "old": "def format_binary(val: typing.Any, with_header=True) -> bytes:\n",
+                "new": "_LEN = struct.Struct('!H')\n\n\ndef format_binary(val: typing.Any, with_header=True) -> bytes:\n"},
+               {"file": LLSD, "old": "        return b'b' + struct.pack('!i', len(something)) + something\n",
+                "new": "        return b'b' + _LEN.pack(len(something)) + something\n"}]},
+    {"name": "P1 converted slot addressed through a local", "file": MSGSER, "expect": "silent",
+     "old": "            val = block[tmpl_var.name]\n            block[tmpl_var.name] = LLSDDataPacker.unpack(val, tmpl_var.type)\n",
+     "new": "            slot = tmpl_var.name\n            block[slot] = LLSDDataPacker.unpack(block[slot], tmpl_var.type)\n"},
     # ------------------------------------------------------------------ documented limits
     {"name": "X quaternion packed with two components (count still accepted by the constructor)", "file": PACK, "expect": "miss",
      "old": "MsgType.MVT_LLQuaternion: _make_llsd_tuplecoord_spec(Quaternion, needed_elems=3)",
